@@ -852,7 +852,7 @@ def gen_cases(tier, rng):
         cases.append(dict(kind="valid-hand", mapped=R.renumber_maps(m, rng), truth=t, src="hand#%d" % i))
 
     # ---- canonicaliser
-    chosen = (rng.sample(us, 10) + rng.sample(ec, 8)) if q else corp
+    chosen = (rng.sample(us, 7) + rng.sample(ec, 5)) if q else corp
     for s, i, r in chosen:
         src = "%s#%d" % (s, i)
         cases += _canon_cases("corpus", r, src=src)
@@ -880,7 +880,7 @@ def gen_cases(tier, rng):
             cases += _canon_cases("renum", R.renumber_maps(r, rng), orig=r, src=src)
 
     # ---- validator
-    chosen = (rng.sample(us, 18) + rng.sample(ec, 8)) if q else corp
+    chosen = (rng.sample(us, 12) + rng.sample(ec, 6)) if q else corp
     for n_, (s, i, r) in enumerate(chosen):
         src = "%s#%d" % (s, i)
         cases.append(dict(kind="valid-renum", mapped=R.renumber_maps(r, rng), truth=r, src=src))
@@ -899,7 +899,7 @@ def gen_cases(tier, rng):
             cases.append(dict(kind="valid-cross", mapped=chosen[n_ + 1][2], truth=r, src=src))
 
     # ---- balance
-    chosen = (rng.sample(us, 7) + rng.sample(ec, 11)) if q else corp
+    chosen = (rng.sample(us, 5) + rng.sample(ec, 7)) if q else corp
     for s, i, r in chosen:
         src = "%s#%d" % (s, i)
         cases.append(dict(kind="bal-corpus", rsmi=r, src=src))
@@ -912,7 +912,7 @@ def gen_cases(tier, rng):
             cases.append(dict(kind="bal-" + how, rsmi=v, src=src))
 
     # ---- Standardize (oracle only)
-    chosen = (rng.sample(us, 15) + rng.sample(ec, 15)) if q else corp
+    chosen = (rng.sample(us, 8) + rng.sample(ec, 8)) if q else corp
     for s, i, r in chosen:
         vs = []
         for how in ("renum", "reroot", "frag"):
